@@ -16,7 +16,8 @@ EXTENDS Fixed, TLC
 
 CONSTANTS FIXED,      \* Close emits the buffered outline when the whole subpath is in the first dash (8d51585)
           FIXED2,     \* the Close branch clears is_first_segment at a dash boundary like the LineTo branch
-          FIXED3      \* the offset loop advances when the offset lands exactly on a dash boundary (>=)
+          FIXED3,     \* the offset loop advances when the offset lands exactly on a dash boundary (>=)
+          FIXED4      \* MoveTo flushes the buffered first dash before it starts the new subpath (a2b4637)
 VARIABLES path,        \* input subpaths
           A, off,      \* dash array (positive integers), offset
           sp,          \* index of the subpath being processed (0 before the first)
@@ -66,9 +67,11 @@ PerimeterOf(s) == SumSeq(path[s].lens) + (IF path[s].closed THEN path[s].lc ELSE
 DoMoveTo ==
   /\ ~done /\ sp < Len(path) /\ (IF sp = 0 THEN TRUE ELSE k > NSeg(sp) + (IF path[sp].closed THEN 1 ELSE 0))
   /\ sp' = sp + 1 /\ k' = 1 /\ pos' = 0
-  \* the previous initial segment is flushed, then dashed.move_to(pt) starts the new subpath (in this order since the
-  \* repair of the closed-single-point defect: a Close must never find the flushed polyline as the current subpath)
-  /\ out' = Append(Flush(out, sp, initSeg), <<"M", sp + 1, 0>>)
+  \* repaired: the previous initial segment is flushed, then dashed.move_to(pt) starts the new subpath; the pinned code
+  \* did it the other way round, so that a Close following directly (a subpath that is a single point) closed the
+  \* polyline that had just been flushed
+  /\ out' = IF FIXED4 THEN Append(Flush(out, sp, initSeg), <<"M", sp + 1, 0>>)
+             ELSE Flush(Append(out, <<"M", sp + 1, 0>>), sp, initSeg)
   /\ isFirstSeg' = TRUE /\ initSeg' = <<>> /\ firstDash' = TRUE /\ ds' = Initial
   /\ UNCHANGED <<path, A, off, done>>
 
@@ -132,7 +135,7 @@ DedupS(s) == IF Len(s) <= 1 THEN s ELSE IF s[1] = s[2] THEN DedupS(Tail(s)) ELSE
 \* normal form of a piece on subpath s: positions modulo the perimeter when the subpath is closed
 Norm(pc) ==
   LET L == PerimeterOf(pc.sp)
-      m(x) == IF path[pc.sp].closed THEN x % L ELSE x
+      m(x) == IF path[pc.sp].closed /\ L > 0 THEN x % L ELSE x      \* (a single-point subpath has no perimeter)
       p == DedupS([i \in 1..Len(pc.pts) |-> m(pc.pts[i])])
       \* a closed piece that returns to its first point explicitly is the same outline
       q == IF pc.closed /\ Len(p) >= 2 /\ p[1] = p[Len(p)] THEN SubSeq(p, 1, Len(p) - 1) ELSE p
